@@ -50,6 +50,7 @@ type FuncContract struct {
 	ModAll   bool
 	Loops    map[int]*LoopSpec
 	Inline   bool
+	Instantiate [][2]string // (param, function name): verify once per entry with the func-typed param bound
 	Lets     map[string]*Expr
 	LetOrder []string
 	Params   []Param // extern / spec
@@ -129,7 +130,7 @@ func NewContractSet() *ContractSet {
 var subKeywords = map[string]bool{"mode": true, "props": true, "inline": true, "unroll": true, "requires": true,
 	"ensures": true, "modifies": true, "loop": true, "let": true, "assumes": true, "effect": true,
 	"nopanic": true, "maypanic": true, "pure": true, "trusted": true, "invariant": true, "protects": true,
-	"ghost": true, "site": true, "bounded": true, "reveal": true, "use": true, "check": true, "atomic": true, "chans": true, "published": true, "guarantee": true, "rely": true, "leaf": true}
+	"ghost": true, "site": true, "bounded": true, "reveal": true, "instantiate": true, "use": true, "check": true, "atomic": true, "chans": true, "published": true, "guarantee": true, "rely": true, "leaf": true}
 
 var labelRe = regexp.MustCompile(`^\[([^\]]+)\]\s*`)
 
@@ -517,6 +518,12 @@ func (cs *ContractSet) LoadFile(path, pkg string) error {
 			default:
 				return fmt.Errorf("%s:%d: bad mode", path, l.line)
 			}
+		case "instantiate":
+			parts := strings.Fields(rest)
+			if len(parts) != 2 {
+				return fmt.Errorf("%s:%d: instantiate <param> <function>", path, l.line)
+			}
+			cur.Instantiate = append(cur.Instantiate, [2]string{parts[0], parts[1]})
 		case "props":
 			cur.Props = strings.Fields(rest)
 		case "inline":
